@@ -24,7 +24,8 @@ def random_encoding(rng, roots):
     size = rng.randint(rc.minbytes(n), 4)
     stored = rng.random() < 0.35
     wh = (lambda c: c.mask in (0, 1, 3, 7) and (hash(c.hash) % 3 != 0)) if stored else False
-    tot = sum(len(c.serialize({x.hash: i for i, x in enumerate(order)}, size, wh(c) if callable(wh) else False)) for c in order)
+    idx_of = {x.hash: i for i, x in enumerate(order)}
+    tot = sum(len(c.serialize(idx_of, size, wh(c) if callable(wh) else False)) for c in order)
     mx = tot * 2 + 1 if kw.get('has_cache_bits') else tot
     off = rng.randint(rc.minbytes(mx), 8)
     b = rc.encode_boc(roots, order=order, magic=magic, size=size, off_bytes=off, with_hashes=wh, **kw)
